@@ -132,7 +132,7 @@ PROPS["C05"] = dict(
           "flips in each of the four fields of EVERY signature envelope (located by parsing the protobuf; semantically identical mutants "
           "skipped), and removal of the main provider from the list. key-assignment: for seeded ads with 2..3 extended-provider entries, ALL "
           "assignments of {ad signer, each entry's own key, a stranger} to the entries: valid iff every non-main entry is sealed by the identity "
-          "it names and the main entry by the ad's signer. Sub-check removal-with-extended-providers: removal ads carrying extended providers whose entries are unsigned, garbage, signed for the non-removal ad, lacking the main provider, or sealed by the ad signer must not verify; library signing of such an ad must be refused or give a fully valid ad. distinct_nontrivial = distinct (ad shape, signer key type) tuples."),
+          "it names and the main entry by the ad's signer. Sub-check removal-with-extended-providers: removal ads carrying extended providers whose entries are unsigned, garbage, signed for the non-removal ad, lacking the main provider, or sealed by the ad signer must not verify; library signing of such an ad must be refused or give a fully valid ad. One extended-provider section in ten lists no provider at all (it still carries the override flag, which has a mutation of its own). distinct_nontrivial = distinct (ad shape, signer key type) tuples."),
     floors={"quick": {"removal_ep_cases": 120, "assignments_invalid": 2000, "assignments_valid": 100, "mut_ep-identity": 200, "mut_previous-link-removed": 200, "env_public_key": 1500, "env_signature": 1500, "main_removed": 100}},
     level_text=("Exploration: real signing and verification over generated advertisements of every shape and key type; every single-value "
                 "mutation the statement lists and located byte flips in every envelope must be rejected; the full assignment space of signing "
@@ -239,7 +239,7 @@ PROPS["C09"] = dict(
           "localhost/DNS); every Direct carries a unique marker address so the stream read from Next identifies exactly which calls were "
           "delivered; receiver-concurrent: 3 clients issuing Direct/UncacheCid around the eviction boundary, history checked with porcupine "
           "against the same model; pubsub: three libp2p hosts on one gossip topic (publisher, relay with resend, receiver). "
-          "distinct_nontrivial = sampled distinct exhaustive sequences + history configurations."),
+          "Every fourth CID of the alphabet shares its digest with its neighbour under another codec and every sixteenth is the CIDv0 form of its neighbour's digest; the pubsub scenario rotates the downstream receiver's allow filter through {only the relay, only the original publisher, none}. distinct_nontrivial = sampled distinct exhaustive sequences + history configurations."),
     floors={"quick": {"pubsub_republication_of_disallowed_publisher": 1, "pubsub_allow_filter_on_B_only-original-publisher": 1, "evictions": 800, "refresh_on_hit": 2000, "uncache_then_delivered": 100, "rejected_then_delivered": 100, "concurrent_histories": 20, "pubsub_runs_completed": 2, "seqs_with_eviction_and_hit": 100000}},
     watchdog_s={"quick": 900, "thorough": 7200},
     level_text=("Exploration (the small-capacity LRU part is exhaustive up to the stated length): delivery decisions of the real receiver are "
@@ -261,9 +261,9 @@ PROPS["C16"] = dict(
           "and Next, which may legitimately wait, get a context that is cancelled after a grace period. interleavings: 2..4 goroutines with seeded "
           "scripts racing Close with the other calls, then calls after the Close completed must return the closed error; pubsub-shutdown: "
           "receiver on a real libp2p host + gossip topic, 1..3 concurrent closers, watcher goroutine must be gone; host-without-topic: a "
-          "receiver created with a libp2p host and no topic runs seeded call sequences around a Close. The sequences run once without and once with an allow filter that rejects the announcing peer. Sub-check close-wakes-blocked-calls: 1..3 Direct calls blocked on a full buffer, or Next calls on an empty one, with contexts that are never cancelled; 1..2 closers; every blocked call must return (hang rule applied to the blocked call itself) with the closed error. distinct_nontrivial = "
+          "receiver created with a libp2p host and no topic runs seeded call sequences around a Close. The sequences run once without and once with an allow filter that rejects the announcing peer. Sub-check close-wakes-blocked-calls: 1..3 Direct calls blocked on a full buffer, or Next calls on an empty one, with contexts that are never cancelled; 1..2 closers; every blocked call must return (hang rule applied to the blocked call itself) with the closed error. Sub-check calls-while-allow-callback-runs parks a Direct call inside the application's allow callback and makes the other calls meanwhile; a third of the pubsub shutdowns stop the shared pubsub before the receiver is closed. distinct_nontrivial = "
           "distinct sequences / script sets."),
-    floors={"quick": {"sequences_with_repeated_close": 50, "concurrent_runs": 250, "pubsub_shutdowns": 4, "gossip_announcements_handled_before_close": 8, "host_without_topic_runs": 10, "blocked_calls_woken_by_close": 25, "sequences_with_rejecting_allow_filter": 100}},
+    floors={"quick": {"calls_made_while_allow_callback_ran": 10, "sequences_with_repeated_close": 50, "concurrent_runs": 250, "pubsub_shutdowns": 4, "gossip_announcements_handled_before_close": 8, "host_without_topic_runs": 10, "blocked_calls_woken_by_close": 25, "sequences_with_rejecting_allow_filter": 100}},
     watchdog_s={"quick": 900, "thorough": 7200},
     gomaxprocs=4,
     level_text=("Exploration (sequential part exhaustive to the stated length): every call is observed to return; hangs are decided "
@@ -334,8 +334,8 @@ PROPS["C04"] = dict(
           "notification. Sub-check unusable-address: the sync fails before any request because no sync client can be made from the addresses "
           "(plain tcp / udp address, or none for an unknown publisher), for subscribers with and without a libp2p host, explicit and "
           "announced; the end of an announcement's handling is detected from the tap counters; same obligations, then the same head with "
-          "the real address. distinct_nontrivial = distinct (fault script, mode, mount, address list, baseline kind) tuples."),
-    floors={"quick": {"unusable_address_syncs_failed": 12, "faulty_syncs_failed": 500, "fault_pairs": 150, "mount_libp2phttp-discovery": 150, "mount_legacy-nopath": 150, "addrs_live-dead": 80, "addrs_dead-live": 80,
+          "the real address. A fifth of the cases reach the publisher over libp2p streams (mount libp2p-stream: the subscriber has a libp2p host of its own; a reset fault resets the stream). Explicit syncs run under a 150 s bounded-progress watchdog: a sync that neither completes nor fails is a violation. distinct_nontrivial = distinct (fault script, mode, mount, address list, baseline kind) tuples."),
+    floors={"quick": {"mount_libp2p-stream": 80, "unusable_address_syncs_failed": 12, "faulty_syncs_failed": 500, "fault_pairs": 150, "mount_libp2phttp-discovery": 150, "mount_legacy-nopath": 150, "addrs_live-dead": 80, "addrs_dead-live": 80,
                       "fault_hit_reset": 30, "fault_hit_stall": 10, "fault_hit_ctx-cancel": 20, "fault_hit_hook-fail": 20}},
     watchdog_s={"quick": 1200, "thorough": 7200},
     level_text=("Fault enumeration (seeded sample over kind x request index x mode x mount x address list, singles and pairs): real syncs against a "
@@ -357,8 +357,8 @@ PROPS["C06"] = dict(
           "never-reported providers, strangers that start being reported, waits; TTL regimes 'huge' (nothing can expire) and 'tiny' (1 ns, "
           "every step is certainly past it). Every record carries a unique tag and a version, so what Get/List show identifies the delivery "
           "it came from. After every refresh that returned nil the clauses of the statement are checked for every provider; expiry uses "
-          "[before,after] wall-clock intervals and only asserts what is certain. distinct_nontrivial = distinct (configuration, first steps) histories."),
-    floors={"quick": {"refreshes_overlapping_a_cancelled_one": 1500, "refreshes_ok": 1000, "cancelled_then_successful_refresh": 200, "refreshes_overlapping": 300, "negative_hits": 30, "expiries_observed": 100,
+          "[before,after] wall-clock intervals and only asserts what is certain. Step kind refresh-cancelled-late ends the caller's context while the last source is answering (that source still delivers); refresh-overlap-cancelled requests a refresh while another one, cancelled afterwards, is inside a source. distinct_nontrivial = distinct (configuration, first steps) histories."),
+    floors={"quick": {"refreshes_cancelled_after_the_last_source_answered": 1500, "refreshes_overlapping_a_cancelled_one": 1500, "refreshes_ok": 1000, "cancelled_then_successful_refresh": 200, "refreshes_overlapping": 300, "negative_hits": 30, "expiries_observed": 100,
                       "miss_fetches_positive": 25, "publications_with_merge": 300, "publications_without_merge": 300, "strangers_start_being_reported": 200}},
     level_text=("Exploration: the real cache is driven through thousands of seeded histories and compared after each step with the clauses of the "
                 "property (presence, freshest record, provenance of the record, monotonicity, TTL, negative caching)."),
@@ -381,8 +381,8 @@ PROPS["C07"] = dict(
           "pcache frame; an always-reported provider is never missing; per reader, versions never go back; without auto refresh every List is "
           "one of the version vectors published by a refresh that overlaps the call. reads-do-not-wait: a Refresh / miss-fetch / automatic "
           "refresh is held open inside the source and 2..15 readers must each complete 1000 cached lookups BEFORE it is released (a watchdog "
-          "+ goroutine dumps only classify the failure). Sub-check late-miss-answer-vs-refresh: a lookup miss is held inside a source that decided its answer when the request arrived, the source learns a newer version (or starts reporting the provider), a refresh is requested, the miss is released: the provider must not go back to the older record or disappear, and after the refresh the newest record is shown. distinct_nontrivial = distinct run configurations."),
-    floors={"quick": {"late_miss_answer_cases": 20, "reads": 100000, "reads_overlapping_a_refresh": 5000, "list_snapshot_checks": 2000, "publications": 1500, "nowait_refresh": 3, "nowait_miss-fetch": 3, "nowait_auto-refresh": 3,
+          "+ goroutine dumps only classify the failure). Sub-check late-miss-answer-vs-refresh: a lookup miss is held inside a source that decided its answer when the request arrived, the source learns a newer version (or starts reporting the provider), a refresh is requested, the miss is released: the provider must not go back to the older record or disappear, and after the refresh the newest record is shown. Four providers cached at the start stop being reported after round 3 and must stay listed (their time-to-live is an hour). distinct_nontrivial = distinct run configurations."),
+    floors={"quick": {"reads_of_cached_providers_no_longer_reported": 20000, "late_miss_answer_cases": 20, "reads": 100000, "reads_overlapping_a_refresh": 5000, "list_snapshot_checks": 2000, "publications": 1500, "nowait_refresh": 3, "nowait_miss-fetch": 3, "nowait_auto-refresh": 3,
                       "lookups_completed_while_writer_held": 50000}},
     watchdog_s={"quick": 900, "thorough": 7200},
     level_text=("Exploration: stress runs of the real cache under the race detector with delays injected at the publication points; every read is "
